@@ -1952,4 +1952,4 @@ def replay(ctx, data):
 
 
 SIGNATURES['premature-status-delayed-group'] = sig_premature_group_status
-SIGNATURES['unpicklable-result-hangs'] = sig_unpicklable_result_hangs
+# (finding unpicklable-result-hangs repaired in /repo: signature retired)
